@@ -84,6 +84,9 @@ class FiniteMDP(AbstractEnv):
             self.observation_space = Box(0.0, 1.0, shape=(self.nS,))
         elif obs_kind == "index":
             self.observation_space = Box(0.0, float(self.nS - 1), shape=(1,))
+        elif obs_kind == "onehot_t":  # one-hot state followed by the episode clock
+            self.observation_space = Box(np.zeros(self.nS + 1, np.float32),
+                                         np.array([1.0] * self.nS + [1e6], np.float32))
         elif obs_kind == "dict":
             self.observation_space = Dict({"s": Box(0.0, 1.0, shape=(self.nS,)),
                                            "i": Box(0.0, float(self.nS - 1), shape=())})
@@ -131,6 +134,8 @@ class FiniteMDP(AbstractEnv):
             return oh
         if self.obs_kind == "index":
             return state.s[None].astype(jnp.float32)
+        if self.obs_kind == "onehot_t":
+            return jnp.concatenate([oh, state.t[None].astype(jnp.float32)])
         from collections import OrderedDict
 
         return OrderedDict({"s": oh, "i": state.s.astype(jnp.float32)})
